@@ -92,7 +92,10 @@ def parse_units(path):
                     # [at fn_start] | [at loop 2 body_end] | [at before "pat"] | [at after "pat"]
                     rest = m.group(1)[2:].strip()
                     mm = re.match(r'^loop\s+(\d+)\s+(body_start|body_end|before|after)$', rest)
-                    if rest == "fn_start":
+                    m2 = re.match(r'^loop\s+(\d+)\s+(before|after)\s+"(.*)"$', rest)
+                    if m2:
+                        sec = ("at", "inloop_" + m2.group(2), (int(m2.group(1)), m2.group(3)))
+                    elif rest == "fn_start":
                         sec = ("at", "fn_start", None)
                     elif mm:
                         sec = ("at", "loop_" + mm.group(2), int(mm.group(1)))
